@@ -69,3 +69,52 @@ def strip_operand(t, operand, side):
         return None
     body = I if not rest else (rest[0] if len(rest) == 1 else ("mul", tuple(rest)))
     return ("scal", scal, body) if scal is not None else body
+
+
+# ------------------------------------------------------------------------------------------------ what an operator kind represents
+# The defining equation `A = <term over A's attributes>` of an operator class.  For the kinds whose product is written in the term
+# grammar it is read off the class's own _matmat (so a new kind, or a kind that gains a structural rule, needs no table entry); the
+# composite kinds whose product is a reshape / concatenation algorithm have the definition that C01 checks that algorithm against.
+from sa.term import SCAL, VAR  # noqa: E402
+
+COMPOSITE_KIND_DEF = {
+    "Product": lambda a: ("fam", "mul", 1, VAR, f"{a}.Ms"),
+    "Sum": lambda a: ("fam", "add", 1, VAR, f"{a}.Ms"),
+    "Kronecker": lambda a: ("fam", "kron", 1, VAR, f"{a}.Ms"),
+    "KronSum": lambda a: ("fam", "ksum", 1, VAR, f"{a}.Ms"),
+    "BlockDiag": lambda a: ("fam", "bdiag", 1, VAR, f"{a}.Ms", f"{a}.multiplicities"),
+}
+_KIND_CACHE = {}
+
+
+def _rename_self(t, a):
+    if isinstance(t, str):
+        return a + t[4:] if t == "self" or t.startswith("self.") else t
+    if isinstance(t, tuple):
+        return tuple(_rename_self(x, a) for x in t)
+    if isinstance(t, frozenset):
+        return frozenset(_rename_self(x, a) for x in t)
+    return t
+
+
+def kind_def(idx, kind, a):
+    """term for the matrix represented by the operator named `a` of class `kind`, or None when the class's product is outside the grammar"""
+    if kind in COMPOSITE_KIND_DEF:
+        return COMPOSITE_KIND_DEF[kind](a)
+    key = (id(idx), kind)
+    if key not in _KIND_CACHE:
+        M = None
+        if idx.has_cls(kind):
+            ci = idx.cls(kind)
+            mm = idx.find_method(ci, "_matmat")
+            if mm is not None and mm.cls is not None and mm.cls.name != "LinearOperator" and len(mm.params) >= 2:
+                te = TermEval(idx)
+                te.self_cls = ci
+                rets = [r for r in df.returns(mm.node) if r.value is not None]
+                t = te.eval_in(mm, rets[0].value) if len(rets) == 1 else ("opaque", "returns")
+                M = strip_operand(t, sym(mm.params[1]), "right")
+                if M is not None and has_opaque(M):
+                    M = None
+        _KIND_CACHE[key] = M
+    M = _KIND_CACHE[key]
+    return None if M is None else _rename_self(M, a)
